@@ -175,6 +175,9 @@ func (c *Ctx) classifyErr(p *errProducer) errVerdict {
 	}
 	add(p.Val)
 	handled := []string{}
+	var checks []*ssa.If
+	propagated := false
+	_ = propagated
 	problems := []string{}
 	var probPos token.Pos
 	nUses := 0
@@ -191,10 +194,12 @@ func (c *Ctx) classifyErr(p *errProducer) errVerdict {
 				continue
 			case *ssa.Return:
 				nUses++
+				propagated = true
 				handled = append(handled, "returned")
 			case *ssa.Send:
 				if x.X == cur {
 					nUses++
+					propagated = true
 					handled = append(handled, "sent on an error channel")
 				}
 			case *ssa.Panic:
@@ -246,6 +251,7 @@ func (c *Ctx) classifyErr(p *errProducer) errVerdict {
 					continue
 				}
 				for _, iff := range iffs {
+					checks = append(checks, iff)
 					b := iff.Block()
 					nonNilSucc := b.Succs[0]
 					if x.Op == token.EQL {
@@ -285,6 +291,39 @@ func (c *Ctx) classifyErr(p *errProducer) errVerdict {
 			case *ssa.MapUpdate, *ssa.Select:
 				nUses++
 				handled = append(handled, "forwarded")
+			}
+		}
+	}
+	// the nil test must lie on every path from the producer to a success return
+	if len(problems) == 0 && len(checks) > 0 && len(cells) == 0 {
+		f := p.Fn
+		sig := f.Signature.Results()
+		for _, ret := range returnsOf(f) {
+			if !instrDominates(p.Instr, ret) {
+				continue
+			}
+			success := false
+			for i := 0; i < sig.Len(); i++ {
+				if isErrorType(sig.At(i).Type()) {
+					for _, rv := range c.resultValues(ret, i) {
+						if isNilConst(rv) {
+							success = true
+						}
+					}
+				}
+			}
+			if !success || c.isNonScanningReturn(ret) {
+				continue
+			}
+			dominated := false
+			for _, iff := range checks {
+				if instrDominates(iff, ret) {
+					dominated = true
+				}
+			}
+			if !dominated {
+				problems = append(problems, "a success return is reachable after the operation without passing the test of its error")
+				probPos = ret.Pos()
 			}
 		}
 	}
@@ -638,4 +677,27 @@ func init() {
 		}
 		fmt.Println("producers:", len(prods))
 	}
+}
+
+// isNonScanningReturn: a success return of a run that only prints help or
+// the version (guarded by pflag.ErrHelp or the --version flag variable).
+func (c *Ctx) isNonScanningReturn(ret *ssa.Return) bool {
+	var versionCell ssa.Value
+	for _, r := range c.flagRegs() {
+		if r.Name == "version" {
+			versionCell = r.ValueArg
+		}
+	}
+	return guardedBy(ret.Block(), func(cond ssa.Value, truth bool) bool {
+		if !truth {
+			return false
+		}
+		if call, ok := cond.(*ssa.Call); ok && calleeQ(&call.Call) == "errors.Is" && c.isGlobal(call.Call.Args[1], "github.com/spf13/pflag", "ErrHelp") {
+			return true
+		}
+		if u, ok := cond.(*ssa.UnOp); ok && u.Op == token.MUL && versionCell != nil && u.X == versionCell {
+			return true
+		}
+		return false
+	})
 }
